@@ -421,7 +421,8 @@ func directedCases() []*Case {
 	for _, m := range []string{"ticket", "wampcra", "cryptosign"} {
 		a := []AuthCfg{{Kind: m, KS: "ks1"}}
 		for _, who := range []string{"alice", "bob"} {
-			// F7 witness shape: a valid handshake, then the recorded response replayed
+			// regression replay of F7 (fixed): a valid handshake, then the recorded response replayed
+			// in a second one, which must be refused for wampcra and cryptosign
 			cs = append(cs, mk("replay-"+m+"-"+who, a, false,
 				HS{Rep: 1, Arrivals: []Arrival{hello([]any{m}, who, nil), auth("valid")}},
 				HS{Rep: 2, Arrivals: []Arrival{hello([]any{m}, who, smuggle), auth("replay")}}))
@@ -459,7 +460,8 @@ func directedCases() []*Case {
 		HS{Local: true, Rep: 7, Arrivals: []Arrival{hello([]any{"ticket"}, "alice", smuggle), auth("valid")}}))
 	cs = append(cs, mk("local-requireauth-none", nil, true,
 		HS{Local: true, Rep: 7, Arrivals: []Arrival{hello([]any{"ticket"}, "alice", smuggle), auth("valid")}}))
-	// a custom authenticator that leaves authrole / authprovider unset
+	// regression replay of C09-HELLO-IDENTITY (fixed): a custom authenticator that leaves authrole /
+	// authprovider unset; the smuggled values must not be recorded
 	cs = append(cs, mk("partial-authenticator", []AuthCfg{{Kind: "custom", Method: "partial", OK: map[string]any{"authid": "partial-user"}}}, false,
 		HS{Rep: 8, Arrivals: []Arrival{hello([]any{"partial"}, "x", smuggle)}}))
 	// anonymous, default and explicit
